@@ -439,21 +439,28 @@ def extend (mac : MacFn) (net : Net) (s : PSeg) (a exp ingress egress : Nat) (pe
     children -/
 def beaconLink (coreSeg : Bool) : LinkType := if coreSeg then .core else .child
 
+/-- the interfaces handed to the extender as `peers` are peering interfaces of the AS (the
+    originator / propagator passes `intfs` of link type Peer) -/
+def PeerIfs (net : Net) (a : Nat) (peers : List Nat) : Prop :=
+  ∀ p ∈ peers, ∀ f, (net a).iface p = some f → f.lt = LinkType.peer
+
 /-- `Beaconed coreSeg b a i`: beacon `b` has reached AS `a` on its interface `i`, having been
-    originated and propagated by ASes of `net` with their own keys (any expiry values, any peer
-    interface selections, any propagation order) -/
+    originated and propagated by ASes of `net` with their own keys (any expiry values, any
+    selection of peering interfaces, any propagation order) -/
 inductive Beaconed (mac : MacFn) (net : Net) (coreSeg : Bool) : PSeg → Nat → Nat → Prop
   | originate (a s0 ts exp e : Nat) (peers : List Nat) (f : Iface) :
-      (net a).iface e = some f → f.lt = beaconLink coreSeg → e ≠ 0 →
+      (net a).iface e = some f → f.lt = beaconLink coreSeg → e ≠ 0 → PeerIfs net a peers →
       Beaconed mac net coreSeg (extend mac net ⟨s0, ts, []⟩ a exp 0 e peers) f.nbr f.nbrIf
   | propagate (b : PSeg) (a i exp e : Nat) (peers : List Nat) (f : Iface) :
       Beaconed mac net coreSeg b a i → (net a).iface e = some f → f.lt = beaconLink coreSeg →
-      e ≠ 0 → Beaconed mac net coreSeg (extend mac net b a exp i e peers) f.nbr f.nbrIf
+      e ≠ 0 → PeerIfs net a peers →
+      Beaconed mac net coreSeg (extend mac net b a exp i e peers) f.nbr f.nbrIf
 
 /-- a registered segment: a beacon terminated (egress 0) by the AS it reached -/
 inductive Registered (mac : MacFn) (net : Net) (coreSeg : Bool) : PSeg → Prop
   | terminate (b : PSeg) (a i exp : Nat) (peers : List Nat) :
-      Beaconed mac net coreSeg b a i → Registered mac net coreSeg (extend mac net b a exp i 0 peers)
+      Beaconed mac net coreSeg b a i → PeerIfs net a peers →
+      Registered mac net coreSeg (extend mac net b a exp i 0 peers)
 
 /-! ### Path combination (`pathSolution.Path`) for a list of at most three edges -/
 
